@@ -478,7 +478,7 @@ add("e3_k16_yaml_binding", "", overlay="e3",
                              "rustc's compact fmt::Arguments template encoding (length-prefixed literals, 0xc0 = next argument)"])
 add("e3_main", "", overlay="e3", desc="every path of main(): K3 exit status 2 <=> invalid command line (usage on stderr, nothing on stdout, nothing translated), exit(1) <=> one 'xt error' message naming the input the failure belongs to, 0 <=> all translated and flushed, MessagePack never to a terminal; K4 source format = -f, else extension, else detection, stdin at most once, mmap => slice; K5 every finished input is flushed explicitly before anything else can fail; K6 translator writes through pipecheck::Writer(BufWriter(stdout.lock()))",
     bounds="<= 3 inputs (thorough: 4); all outcomes of parse_args / open / mmap / translate / flush / is_terminal", functions=K_FUN,
-    props=["C13", "C14", "C15", "C16", "C04", "C18", "C03"], timeout=1800, mem_gb=6, assumptions=K_ASM)
+    props=["C13", "C14", "C15", "C16", "C04", "C18", "C03", "C08"], timeout=1800, mem_gb=6, assumptions=K_ASM)
 
 
 # ---------------------------------------------------------------------------------------------
